@@ -362,6 +362,8 @@ def run(ctx):
     n_t = c06.check_ties(ctx, 'LinearAdaptiveRFA', False, rule='C05.8') + c06.check_ties(ctx, 'ExpAdaptiveRFA', True, rule='C05.8')
     ctx.floor('C05.8', n_t, 40, 'stores examined under tie scenarios')
     check_other_strategies(ctx)
+    from . import c17
+    c17.check_oversample(ctx)
     ctx.notes.append('Derived by hand from C05.1 + C05.2 + C06.2 (not machine-checked): at most a_l + a_r - 1 <= a - 1 samples of an interval '
                      'differ from its average, because sample 0 of the left piece and the plateau-side anchors equal the documented end values.')
     ctx.notes.append('NOT DECIDED (inequalities over the reals): values lie between neighbouring averages; monotone approach to the plateau; non-overshoot.')
